@@ -374,3 +374,35 @@ func ZZ_C05_follow() {
 	}
 	rt.Reach("end")
 }
+
+// ZZ_C05_vars: variables between literals keep their place and their spelling: two variables
+// whose names differ only in letter case (every case pattern) are two variables.
+func ZZ_C05_vars() {
+	form := rt.Param("form")
+	n1 := "cei"
+	b := []byte(n1)
+	diff := false
+	for i := range b {
+		up := rt.Bool(rt.N("up", i))
+		b[i] = byte(rt.Ite(up, int(b[i]-32), int(b[i])))
+		diff = rt.Or(diff, up)
+	}
+	rt.Assume(diff)
+	n2 := string(b)
+	var text string
+	switch form {
+	case 0:
+		text = "S1F1\n<U1 1 " + n1 + " 2 " + n2 + ">\n."
+	case 1:
+		text = "S1F1\n<L <I2 " + n1 + "> <A " + n2 + "> <BOOLEAN T>>\n."
+	case 2:
+		text = "S1F1\n<L " + n1 + " <B 7 " + n2 + ">>\n."
+	}
+	m := zzOne(text, "case-variants")
+	vs := m.Variables()
+	rt.Assert(len(vs) == 2, "case-variants:both-kept")
+	if len(vs) == 2 {
+		rt.Assert(rt.And(rt.StrEq(vs[0], n1), rt.StrEq(vs[1], n2)), "case-variants:spelling-kept")
+	}
+	rt.Reach("end")
+}
